@@ -14,6 +14,7 @@ THEOREMS = [
     "Mesa.Viz.C20_entry_is_portrayal_or_default",
     "Mesa.Viz.C20_location_rule",
     "Mesa.Viz.C20_V3_inplace_pop_refuted",
+    "Mesa.Viz.C20_inplace_agrees_on_unshared_dicts",
     "Mesa.Viz.C20_scatter_partition",
     "Mesa.Viz.C20_marker_values",
     "Mesa.Viz.C20_draw_ok_one_marker_per_agent",
